@@ -905,3 +905,79 @@ def control_index_monotone_rule(ctx, rid: str, prefixes, floor: int = 2):
                                'moves back and a later measurement of the key may be placed in front of that reader', m.rel, st.lineno)
     if n == 0:
         raise AnalysisError(f'{rid}: no control-key index bookkeeping found')
+
+
+# ---------------------------------------------------------------------------------------------------------------------
+# `_act_on_(self, sim_state, qubits)` applies a gate to *those* qubits of a larger state.  Whatever is written into the
+# state must have been routed through `qubits` (get_axes(qubits), a padded tableau, the qubits themselves) on every
+# definition that can reach the update: a definition that does not depend on `qubits` applies the gate in the state's
+# own qubit order.
+def act_on_routes_qubits_rule(ctx, rid: str, floor: int = 3):
+    repo = ctx.repo
+    ctx.rule(rid, 'the update knows where the gate sits: in every `_act_on_(self, sim_state, qubits)` of cirq.ops / cirq.circuits, each local that is used in a statement updating or '
+             'delegating to sim_state has only definitions that depend on `qubits` (directly or through locals that do) - a fast path that takes the gate\'s own tableau / matrix '
+             'without routing it through the axes of `qubits` is right only when the gate is applied in the state\'s own qubit order', floor=floor, style='TNT')
+    n = 0
+    for ci in sorted(repo.classes.values(), key=lambda c: c.qual):
+        if '.testing.' in ci.qual or '.contrib.' in ci.qual or not ci.qual.startswith(('cirq.ops.', 'cirq.circuits.', 'cirq_google.', 'cirq_ionq.')):
+            continue
+        fn = ci.methods.get('_act_on_')
+        if fn is None:
+            continue
+        params = [a.arg for a in fn.args.args]
+        if len(params) < 3:
+            continue
+        st, qb = params[1], params[2]
+        defs = {}
+        for s in ast.walk(fn):
+            tg = []
+            if isinstance(s, ast.Assign):
+                tg = list(s.targets)
+            elif isinstance(s, ast.AnnAssign) and s.value is not None:
+                tg = [s.target]
+            elif isinstance(s, ast.NamedExpr):
+                tg = [s.target]
+            for t in tg:
+                for x in ast.walk(t):
+                    if isinstance(x, ast.Name) and isinstance(x.ctx, ast.Store):
+                        defs.setdefault(x.id, []).append(s.value)
+            if isinstance(s, (ast.For, ast.comprehension)):
+                for x in ast.walk(s.target):
+                    if isinstance(x, ast.Name):
+                        defs.setdefault(x.id, []).append(s.iter)
+        memo = {}
+
+        def dep_name(nm, stack=()):
+            if nm == qb:
+                return True
+            if nm in memo:
+                return memo[nm]
+            if nm in stack or nm not in defs:
+                return False
+            r = all(any(isinstance(x, ast.Name) and dep_name(x.id, stack + (nm,)) for x in ast.walk(e)) for e in defs[nm])
+            memo[nm] = r
+            return r
+        updates = []
+        for s in ast.walk(fn):
+            call = None
+            if isinstance(s, ast.Assign) and any(isinstance(t, (ast.Attribute, ast.Subscript)) and any(isinstance(x, ast.Name) and x.id == st for x in ast.walk(t)) for t in s.targets):
+                updates.append(s)
+                continue
+            if isinstance(s, ast.Expr) and isinstance(s.value, ast.Call):
+                call = s.value
+            elif isinstance(s, ast.Return) and isinstance(s.value, ast.Call):
+                call = s.value
+            if call is not None and (any(isinstance(x, ast.Name) and x.id == st for x in ast.walk(call.func))
+                                     or any(isinstance(a, ast.Name) and a.id == st for a in list(call.args) + [k.value for k in call.keywords])):
+                updates.append(s)
+        for k, u in enumerate(updates, 1):
+            names = {x.id for x in ast.walk(u) if isinstance(x, ast.Name) and isinstance(x.ctx, ast.Load) and x.id not in (st, 'self') and (x.id in defs or x.id == qb)}
+            if not names:
+                continue        # nothing local involved (a zero-qubit effect or pure delegation of self)
+            bad = sorted(nm for nm in names if not dep_name(nm))
+            n += 1
+            ctx.ob(rid, f'{ci.qual}._act_on_:update#{k}', not bad, '' if not bad else
+                   f'`{ast.unparse(u)[:70]}` uses `{bad[0]}`, one of whose definitions does not depend on `{qb}`: on that path the gate is applied without regard to which qubits of the '
+                   'state it acts on', ci.mod.rel, u.lineno)
+    if n == 0:
+        raise AnalysisError(f'{rid}: no _act_on_ with a local-dependent state update found')
